@@ -45,7 +45,7 @@ type Run struct {
 	Calls int             // call sites inspected
 	start time.Time
 
-	Only  *regexp.Regexp // replay: evaluate only matching obligations
+	Only *regexp.Regexp // replay: evaluate only matching obligations
 	// keep/prefix are set while the obligations of another property's rule table
 	// are imported (see Import).
 	keep   func(key string) bool
